@@ -34,6 +34,21 @@ pub struct Hooks {
     pub io_point: fn(kind: &'static str, is_write: bool, len: usize) -> Option<io::Error>,
     /// Called before a file is opened on behalf of the shell.
     pub open_point: fn(path: &Path) -> Option<io::Error>,
+    /// Offers an external command to the simulator just before it would be spawned; `fds`
+    /// are the descriptors the child would inherit. `None` means: spawn it for real.
+    pub sim_spawn: fn(program: &str, args: &[String], fds: Vec<(crate::ShellFd, OpenFile)>) -> Option<SimChild>,
+    /// Called before a simulated child's exit is awaited.
+    pub before_process_wait: fn(pid: i32),
+    /// Called before a simulated child's exit is polled without blocking.
+    pub before_process_poll: fn(pid: i32),
+}
+
+/// A simulated child process.
+pub struct SimChild {
+    /// Its (simulated) process id.
+    pub pid: i32,
+    /// Resolves to its raw wait status once it has exited.
+    pub exit: std::pin::Pin<Box<dyn Future<Output = i32> + Send + Sync>>,
 }
 
 static HOOKS: OnceLock<Hooks> = OnceLock::new();
@@ -162,6 +177,44 @@ pub(crate) fn open_point(path: &Path) -> io::Result<()> {
     match hooks().and_then(|h| (h.open_point)(path)) {
         Some(e) => Err(e),
         None => Ok(()),
+    }
+}
+
+/// Offers an external command to the simulator; returns the started (simulated) process if
+/// the simulator took it.
+pub(crate) fn sim_spawn<SE: crate::extensions::ShellExtensions>(
+    context: &crate::commands::ExecutionContext<'_, SE>,
+    program: &str,
+    args: &[&String],
+    pgid: Option<i32>,
+) -> Option<crate::processes::ChildProcess> {
+    let h = hooks()?;
+    let args: Vec<String> = args.iter().map(|s| (*s).clone()).collect();
+    let child = (h.sim_spawn)(program, &args, context.iter_fds().collect())?;
+    let (pid, exit) = (child.pid, child.exit);
+    let fut = async move {
+        use std::os::unix::process::ExitStatusExt as _;
+        let raw = exit.await;
+        Ok(std::process::Output {
+            status: std::process::ExitStatus::from_raw(raw),
+            stdout: vec![],
+            stderr: vec![],
+        })
+    };
+    Some(crate::processes::ChildProcess::from_future(Box::pin(fut), Some(pid), pgid.or(Some(pid))))
+}
+
+/// Announces that a child's exit is about to be awaited.
+pub(crate) fn before_process_wait(pid: Option<i32>) {
+    if let (Some(h), Some(pid)) = (hooks(), pid) {
+        (h.before_process_wait)(pid);
+    }
+}
+
+/// Announces that a child's exit is about to be polled without blocking.
+pub(crate) fn before_process_poll(pid: Option<i32>) {
+    if let (Some(h), Some(pid)) = (hooks(), pid) {
+        (h.before_process_poll)(pid);
     }
 }
 
